@@ -32,6 +32,9 @@ type c08In struct {
 	Steps  []c08Step   `json:"steps"`
 	// ChildViaProposal: the Child SA descriptors come from NewChildSAKeyByProposal instead of StrToKType
 	ChildViaProposal bool `json:"child_via_proposal"`
+	// NegotiateFirst: the Child SA objects of all steps are created (negotiated) up front and keyed afterwards, in step
+	// order - several Child SAs of one IKE SA are in flight at the same time
+	NegotiateFirst bool `json:"negotiate_first"`
 }
 
 func c08NewSA(in c08In) (*security.IKESAKey, []byte, error) {
@@ -59,6 +62,7 @@ var c08History = probe.Define("C08", "history", func(t *rapid.T) c08In {
 		in.SKd = gen.Fill(t, "skd", ref.Prfs[in.Prf].KeyLen)
 	}
 	in.ChildViaProposal = rapid.IntRange(0, 2).Draw(t, "childviaproposal") == 2
+	in.NegotiateFirst = rapid.IntRange(0, 3).Draw(t, "negotiatefirst") == 3
 	n := gen.Len(t, "nsteps", 1, 200, 1, 2, 100, 200)
 	for i := 0; i < n; i++ {
 		in.Steps = append(in.Steps, c08Step{Encr: rapid.IntRange(0, 2).Draw(t, "encr"), Integ: rapid.IntRange(0, 3).Draw(t, "integ"),
@@ -73,12 +77,24 @@ var c08History = probe.Define("C08", "history", func(t *rapid.T) c08In {
 		return probe.Fail("building the IKE SA: %v", err)
 	}
 	labels := []string{"prf:" + ref.Prfs[in.Prf].Name}
+	var negotiated []*security.ChildSAKey
+	if in.NegotiateFirst {
+		for _, st := range in.Steps {
+			negotiated = append(negotiated, childSA(st.Encr, st.Integ))
+		}
+		labels = append(labels, "negotiated-first")
+	}
 	for i, st := range in.Steps {
 		F, _, err := c08NewSA(in) // freshly constructed copy of the IKE SA
 		if err != nil {
 			return probe.Fail("building a fresh IKE SA: %v", err)
 		}
-		kL, err := deriveChild(L, st.Encr, st.Integ, st.Nonce)
+		var kL ref.ChildKeys
+		if in.NegotiateFirst {
+			kL, err = deriveChildOn(negotiated[i], L, st.Nonce)
+		} else {
+			kL, err = deriveChild(L, st.Encr, st.Integ, st.Nonce)
+		}
 		if err != nil {
 			return probe.Fail("derivation %d on the long-lived SA: %v", i+1, err)
 		}
